@@ -368,7 +368,7 @@ def run_property(prop, tier, seed, replay=None):
     for f in failures:
         hit = None
         for k in known:
-            if hasattr(prop, "known_match") and prop.known_match(k, f["stream"], f["payload"]):
+            if hasattr(prop, "known_match") and prop.known_match(k, f["stream"], f["payload"], f["why"]):
                 hit = k
                 break
         if hit is not None:
